@@ -8,20 +8,52 @@ def _anysym(*vs):
     return any(is_sym(v) for v in vs)
 
 
+# ---- bit-sliced mode: when an operand is an SBV the connectives act lane-wise (bitwise); True/False are all-ones/zeros.
+# This lifts a value-level spec text to 8 (or w) independent lanes by construction.
+def _bs(vs):
+    w = None
+    for v in vs:
+        if isinstance(v, SBV):
+            w = v.width
+    return w
+
+
+def _bsv(v, w):
+    if isinstance(v, SBV):
+        return v.e
+    if isinstance(v, SBool):
+        return z3.If(v.e, z3.BitVecVal((1 << w) - 1, w), z3.BitVecVal(0, w))
+    return z3.BitVecVal((1 << w) - 1 if bool(v) else 0, w)
+
+
 def And(*vs):
     vs = [v for v in vs]
+    w = _bs(vs)
+    if w:
+        r = _bsv(vs[0], w)
+        for v in vs[1:]:
+            r = r & _bsv(v, w)
+        return SBV(r)
     if not _anysym(*vs):
         return all(bool(v) for v in vs)
     return SBool(z3.And(*[to_bool(v) for v in vs]))
 
 
 def Or(*vs):
+    w = _bs(vs)
+    if w:
+        r = _bsv(vs[0], w)
+        for v in vs[1:]:
+            r = r | _bsv(v, w)
+        return SBV(r)
     if not _anysym(*vs):
         return any(bool(v) for v in vs)
     return SBool(z3.Or(*[to_bool(v) for v in vs]))
 
 
 def Not(v):
+    if isinstance(v, SBV):
+        return SBV(~v.e)
     if not is_sym(v):
         return not bool(v)
     return SBool(z3.Not(to_bool(v)))
@@ -34,12 +66,18 @@ def implies(a, b):
 
 
 def iff(a, b):
+    w = _bs((a, b))
+    if w:
+        return SBV(~(_bsv(a, w) ^ _bsv(b, w)))
     if not _anysym(a, b):
         return bool(a) == bool(b)
     return SBool(to_bool(a) == to_bool(b))
 
 
 def ite(c, a, b):
+    if isinstance(c, SBV):       # bit-sliced selection
+        w = c.width
+        return SBV((c.e & _bsv(a, w)) | (~c.e & _bsv(b, w)))
     if not is_sym(c):
         return a if bool(c) else b
     if isinstance(a, SBV) or isinstance(b, SBV):
